@@ -82,6 +82,7 @@ def cterm(x):
 # ---------------------------------------------------------------------------
 class SymMode:
     symbolic = True
+    variant = None
 
     def __init__(self, ctx):
         self.ctx = ctx
